@@ -1,0 +1,63 @@
+//go:build verif
+
+// C13 (resource manager part) and C15 for configuration updates (pkg/resmgr/resource-manager.go).
+//
+// reconfigure(cfg) applies cfg to logger, instrumentation, controllers, cache and policy ("apply"); when
+// that fails it applies the previous configuration m.cfg again and returns the error of the first attempt.
+// Ghost trace of what the subsystems have been handed:
+//   instrN  number of instrumentation.Reconfigure calls (= the first fallible step of one `apply`)
+//   polN    number of policy.Reconfigure calls, polCfg the configuration passed by the last one
+
+package resmgr
+
+//@ ghost instrN int
+//@ ghost polN int
+//@ ghost polCfg any
+
+// the policy part of a configuration object (configuration objects are immutable snapshots)
+//@ pure polCfgOf(c cfgapi.ResmgrConfig) any
+
+//@ assume-contract github.com/containers/nri-plugins/pkg/instrumentation.Reconfigure
+//@   modifies instrN
+//@   ensures instrN == old(instrN) + 1
+
+//@ pure resmgrReady(m *resmgr) bool = m != nil && m.cfg != nil && m.cache != nil && m.policy != nil && m.control != nil && m.agent != nil &&
+//@     m.nri != nil && m.nri.resmgr == m && m.nri.stub != nil && m.nri.byname != nil
+
+//@ func (*resmgr).reconfigure safety
+//@   requires resmgrReady(m) && cfg != nil
+//@   requires !sync.locked() && !unguarded
+//@   requires pendOK()
+//@   ensures[C15] !sync.locked()
+//@   ensures[C15] !unguarded
+//@   # accepted: every resource change the policy made is pushed to the runtime (C05)
+//@   ensures[C05] result == nil ==> drained(nil) && pushN > old(pushN)
+//@   # accepted: the new configuration is recorded and is the one the policy runs with; applied exactly once
+//@   ensures[C13] result == nil ==> m.cfg == cfg && instrN == old(instrN) + 1 && polN == old(polN) + 1 && polCfg == polCfgOf(cfg)
+//@   # rejected: the error is returned, the recorded configuration is unchanged and the previous configuration
+//@   # has been applied again, exactly once
+//@   ensures[C13] result != nil ==> m.cfg == old(m.cfg) && instrN == old(instrN) + 2
+//@   ensures[C13] result != nil ==> polN <= old(polN) + 2
+//@   ensures[C13] result != nil && polN == old(polN) + 2 ==> polCfg == polCfgOf(old(m.cfg))
+
+// Start-up with the initial configuration is not verified (and not reachable from updateConfig once running).
+//@ assume-contract (*resmgr).start
+//@   requires !m.running
+//@   modifies *
+
+// Configuration updates delivered by the agent once the resource manager is running.
+//@ func (*resmgr).updateConfig safety
+//@   requires resmgrReady(m) && m.running
+//@   requires !sync.locked() && !unguarded
+//@   requires pendOK()
+//@   ensures[C15] !sync.locked()
+//@   ensures[C15] !unguarded
+//@   ensures[C13] result1 == nil ==> implements(newCfg, cfgapi.ResmgrConfig) && m.cfg == newCfg
+//@   ensures[C13] result1 != nil ==> m.cfg == old(m.cfg)
+
+// Shutdown stops the NRI stub under the pipeline lock.
+//@ func (*resmgr).Stop safety
+//@   requires m != nil && m.nri != nil && m.nri.stub != nil
+//@   requires !sync.locked() && !unguarded
+//@   ensures[C15] !sync.locked()
+//@   ensures[C15] !unguarded
